@@ -1,5 +1,5 @@
 (* C01 — every subscriber sees items, then at most one terminal, then nothing. *)
-From RxModel Require Import Pipe Flatten GroupBy Timed.
+From RxModel Require Import Pipe Flatten GroupBy Timed Chain.
 From RxSpec Require Import FlattenSpec GroupBySpec TimedSpec.
 From RxProofs Require PipeLaws FlattenLaws TimedLaws TimedGrammar.
 
@@ -58,6 +58,17 @@ Theorem C01_timed_predicates_imply_grammar :
   forall o ls out, TimedLaws.not_raw o -> timed_ok o ls out = true -> wf (TimedGrammar.delivered out) = true.
 Proof. exact TimedGrammar.timed_ok_grammar. Qed.
 
+(* composed with the untimed part: any pipeline tree in front of the scheduler-using operator (its
+   trace woven with polls and clock advances placed anywhere), any chain of single-input operators
+   behind it *)
+Theorem C01_timed_inside_a_pipeline :
+  forall o p sts others os, TimedLaws.not_raw o ->
+    wf (run_hot os (TimedGrammar.delivered (run_timed o (TimedGrammar.weave (exec p sts) others)))) = true.
+Proof. exact TimedGrammar.timed_on_pipeline_grammar. Qed.
+
+Check C01_timed_inside_a_pipeline : forall o p sts others os, TimedLaws.not_raw o ->
+    wf (run_hot os (TimedGrammar.delivered (run_timed o (TimedGrammar.weave (exec p sts) others)))) = true.
+Print Assumptions C01_timed_inside_a_pipeline.
 Check C01_timed_grammar : forall o ls, TimedLaws.not_raw o -> wf (TimedGrammar.delivered (run_timed o ls)) = true.
 Check C01_timed_predicates_imply_grammar :
   forall o ls out, TimedLaws.not_raw o -> timed_ok o ls out = true -> wf (TimedGrammar.delivered out) = true.
